@@ -18,7 +18,7 @@
 (* to what it has to do with it (expected disposition, computed here from  *)
 (* the property text) and what it has been seen to do.                     *)
 (***************************************************************************)
-EXTENDS Naturals, Integers, Sequences, FiniteSets, TLC, ClauseLib
+EXTENDS Naturals, Integers, Sequences, FiniteSets, TLC, ClauseLib, CborSize
 
 VARIABLES scen,
           hist,      \* [id -> record] bundles accepted for processing (good CRC, new, foreign source)
@@ -169,11 +169,14 @@ BoundaryClauses(ev) ==
 
 FragmentTiling(base, total) ==
   \* the transmitted fragments of base tile [0, total) : contiguous, non-overlapping, complete
+  \* (stated on the end points so that large payloads do not have to be enumerated octet by octet)
   LET fr == {i \in OutsOf(base) : outs[i].b.isfrag}
-      Covers(k) == {i \in fr : outs[i].b.off <= k /\ k < outs[i].b.off + outs[i].b.paylen}
-  IN /\ \A k \in 0..(total - 1) : Cardinality(Covers(k)) = 1
-     /\ \A i \in fr : outs[i].b.off + outs[i].b.paylen <= total /\ outs[i].b.total = total
-                      /\ (outs[i].b.paylen > 0 \/ total = 0)
+      Off(i) == outs[i].b.off
+      End(i) == outs[i].b.off + outs[i].b.paylen
+  IN /\ \A i \in fr : outs[i].b.total = total /\ End(i) <= total /\ (outs[i].b.paylen > 0 \/ total = 0)
+     /\ \A i, j \in fr : (i # j) => (End(i) <= Off(j) \/ End(j) <= Off(i))          \* no overlap
+     /\ \A i \in fr : Off(i) = 0 \/ \E j \in fr : End(j) = Off(i)                  \* no gap before i
+     /\ (total > 0 => \E i \in fr : End(i) = total)                                \* reaches the end
 
 FinalClauses ==
   UNION {
@@ -243,6 +246,9 @@ FragOutClauses(ev) ==
        C({"C05"}, "FragmentCarriesOriginalIdentityAndTotalLength",
            \A o \in origs : b.total = o.paylen /\ b.src = o.src /\ b.dest = o.dest /\ Has(b, "FRAG")),
        C({"C05"}, "FragmentPayloadIsTheRightSliceOfTheOriginal", ev.fragok),
+       \* binds the size model of SegSizing to the real encoding
+       C({"C05"}, "EncodedSizeMatchesSizeModel",
+           (b.total < 1000000 /\ ev.fx >= 0) => b.size = ev.fx + HeadLen(b.off) + HeadLen(b.total) + BstrSize(b.paylen)),
        C({"C05"}, "FirstFragmentCarriesAllExtensionBlocksLaterOnlyReplicated",
            \A o \in origs :
               LET ext(x) == {[type |-> x.blocks[i].type, num |-> x.blocks[i].num]
